@@ -72,10 +72,37 @@ Definition step_result (tbl : list row) (w : world) (s : tval) : result :=
       end
   end.
 
+(* concurrent pair  [ 9 ; stepA ; stepB ; ... ; observed(at 11) ] with observed = [okA ; maps ; codes ; doms ; online ; okB ; ... ; bind(at 9)]:
+   the real outcome must be the outcome of ONE of the two sequential orders of the model (the handlers keep no state of
+   their own between a command's steps, so a pair of commands is linearizable) *)
+(* traffic counters are left out: two parties' concurrent reports are a read-modify-write race on the counters (a lost update is
+   an accounting matter between the two parties, not an identity matter) *)
+Definition map_row_eqb (m : mapping) (o : tval) : bool :=
+  (m_id m =? vn (vnth 0 o)) && (m_listen m =? vn (vnth 1 o)) && (m_target m =? vn (vnth 2 o)) && Bool.eqb (m_active m) (vbool (vnth 5 o)).
+Definition world_matches (w : world) (o : tval) : bool :=
+  all2 map_row_eqb (w_maps w) (vl (vnth 1 o))
+  && rows_eqb (map proj_code (w_codes w)) (vl (vnth 2 o))
+  && rows_eqb (map proj_dom (w_doms w)) (vl (vnth 3 o))
+  && list_eqb (w_online w) (map vn (vl (vnth 4 o)))
+  && rows_eqb (map proj_bind (w_bind w)) (vl (vnth 9 o)).
+Definition pair_eval (tbl : list row) (w : world) (s : tval) : world * bool :=
+  let a := vnth 1 s in let b := vnth 2 s in let o := vnth 11 s in
+  let okA := vbool (vnth 0 o) in let okB := vbool (vnth 5 o) in
+  let ra := step_result tbl w a in let rb := step_result tbl (res_world ra) b in
+  let rb' := step_result tbl w b in let ra' := step_result tbl (res_world rb') a in
+  (* the final store is the one of a sequential order; each success flag is the one that command has in SOME order (two
+     authorised commands racing on one object may both report success: the second delete of a record the first one has read) *)
+  let flags := (Bool.eqb (res_ok ra) okA || Bool.eqb (res_ok ra') okA) && (Bool.eqb (res_ok rb) okB || Bool.eqb (res_ok rb') okB) in
+  if world_matches (res_world rb) o then (res_world rb, flags)
+  else if world_matches (res_world ra') o then (res_world ra', flags)
+  else (res_world rb, false).
+
 Fixpoint run_steps (tbl : list row) (w : world) (ss : list tval) : bool :=
   match ss with
   | [] => true
-  | s :: ss' => let r := step_result tbl w s in obs_matches r (vnth 11 s) && run_steps tbl (res_world r) ss'
+  | s :: ss' =>
+      if vn (vnth 0 s) =? 9 then let '(w', ok) := pair_eval tbl w s in ok && run_steps tbl w' ss'
+      else let r := step_result tbl w s in obs_matches r (vnth 11 s) && run_steps tbl (res_world r) ss'
   end.
 
 (* overlapping commands (Model/CmdContext.v):  [ 9 ; threads ; schedule ; observed ]
@@ -120,7 +147,9 @@ Definition enc_result (r : result) : tval :=
 Fixpoint predict_steps (tbl : list row) (w : world) (ss : list tval) : list tval :=
   match ss with
   | [] => []
-  | s :: ss' => let r := step_result tbl w s in enc_result r :: predict_steps tbl (res_world r) ss'
+  | s :: ss' =>
+      if vn (vnth 0 s) =? 9 then let '(w', _) := pair_eval tbl w s in enc_result (mk true w') :: predict_steps tbl w' ss'
+      else let r := step_result tbl w s in enc_result r :: predict_steps tbl (res_world r) ss'
   end.
 Definition predict (v : tval) : tval :=
   if vn (vnth 0 v) =? 9 then VL (map (fun obs => enc_rows (map proj_ctx obs)) (overlap_model v))
